@@ -368,7 +368,7 @@ def hash_sweep(ctx, item):
 
 def run(ctx):
     import check
-    items = [f'hash-{i}' for i in range(3 if ctx.quick else 6)] + list(range(300 if ctx.quick else 2000))
+    items = [f'hash-{i}' for i in range(3 if ctx.quick else 6)] + list(range(300 if ctx.quick else 1500))
     check.pmap(ctx, 'props.c08', 'one', items, case_timeout=300 if ctx.quick else 1200)
 
 
